@@ -26,6 +26,9 @@ NEEDS_BRIDGEPOINT = True
 BUDGET_S = {'quick': 3600, 'thorough': 14400}
 ASSUMPTIONS = [
     'association key spellings equal the declared attribute spellings',
+    'six schemas declare unique identifiers over the identifying attributes of their associations (one lists them in the other order, '
+    'one class carries two); identifiers are reported, not enforced, so populations repeating an identifier stay in the domain and '
+    'the linked pairs must be the same as without the declaration (round 9, C03-17)',
     'every split of an input over several input() calls is also fed with a build_metamodel() after every call; only the last '
     'build is judged (the earlier ones may be refused while a class is missing)',
     'the API route is compared for populations whose join respects the declared multiplicities; rows are created referred-first',
@@ -51,13 +54,13 @@ def S(name, classes, assocs, uniques=()):
 def schemas_():
     out = []
     out.append((S('int_key', [('A', [('Id', 'INTEGER'), ('N', 'INTEGER')]), ('B', [('Bid', 'UNIQUE_ID'), ('A_Id', 'INTEGER')])],
-                  [Assoc(1, 'B', ['A_Id'], True, True, '', 'A', ['Id'], False, True, '')]),
+                  [Assoc(1, 'B', ['A_Id'], True, True, '', 'A', ['Id'], False, True, '')], [('A', 'I1', ['Id'])]),
                 {'A.Id': [ABSENT, 0, 5, 7], 'B.A_Id': [ABSENT, 0, 5, 7, 9]}, (2, 2)))
     out.append((S('id_key', [('A', [('Id', 'UNIQUE_ID'), ('N', 'INTEGER')]), ('B', [('Bid', 'UNIQUE_ID'), ('A_Id', 'UNIQUE_ID')])],
                   [Assoc(1, 'B', ['A_Id'], True, True, '', 'A', ['Id'], False, True, '')]),
                 {'A.Id': [ABSENT, 0, 5, 7], 'B.A_Id': [ABSENT, 0, 5, 9]}, (2, 2)))
     out.append((S('two_attr_key', [('A', [('K1', 'STRING'), ('K2', 'UNIQUE_ID')]), ('B', [('Rb', 'UNIQUE_ID'), ('Ra', 'STRING'), ('Bid', 'INTEGER')])],
-                  [Assoc(1, 'B', ['Ra', 'Rb'], True, True, '', 'A', ['K1', 'K2'], False, True, '')]),
+                  [Assoc(1, 'B', ['Ra', 'Rb'], True, True, '', 'A', ['K1', 'K2'], False, True, '')], [('A', 'I1', ['K2', 'K1'])]),
                 {'A.K1': ['', 'k', 'm'], 'A.K2': [0, 1], 'B.Ra': [ABSENT, '', 'k', 'z'], 'B.Rb': [0, 1, 2]}, (2, 1)))
     out.append((S('bool_key', [('A', [('F', 'BOOLEAN'), ('N', 'INTEGER')]), ('B', [('AF', 'BOOLEAN'), ('Bid', 'INTEGER')])],
                   [Assoc(1, 'B', ['AF'], True, True, '', 'A', ['F'], True, True, '')]),
@@ -69,17 +72,19 @@ def schemas_():
                   [Assoc(1, 'B', ['X'], True, True, '', 'A', ['Id'], False, True, ''), Assoc(2, 'B', ['X'], True, True, '', 'C', ['Id'], False, True, '')]),
                 {'A.Id': [0, 5, 7], 'C.Id': [5, 8], 'B.X': [ABSENT, 0, 5, 7, 8]}, (1, 1, 2)))
     out.append((S('reflexive', [('A', [('Id', 'UNIQUE_ID'), ('Next_Id', 'UNIQUE_ID')])],
-                  [Assoc(2, 'A', ['Next_Id'], False, True, 'prev', 'A', ['Id'], False, True, 'next')]),
+                  [Assoc(2, 'A', ['Next_Id'], False, True, 'prev', 'A', ['Id'], False, True, 'next')], [('A', 'I1', ['Id'])]),
                 {'A.Id': [0, 5, 7], 'A.Next_Id': [ABSENT, 0, 5, 7, 9]}, (3,)))
     out.append((S('assoc_class', [('A', [('Id', 'UNIQUE_ID')]), ('B', [('Id', 'UNIQUE_ID')]), ('C', [('Cid', 'INTEGER'), ('A_Id', 'UNIQUE_ID'), ('B_Id', 'UNIQUE_ID')])],
-                  [Assoc(3, 'C', ['A_Id'], True, True, '', 'A', ['Id'], False, False, ''), Assoc(3, 'C', ['B_Id'], True, True, '', 'B', ['Id'], False, False, '')]),
+                  [Assoc(3, 'C', ['A_Id'], True, True, '', 'A', ['Id'], False, False, ''), Assoc(3, 'C', ['B_Id'], True, True, '', 'B', ['Id'], False, False, '')],
+                  [('A', 'I1', ['Id']), ('C', 'I1', ['A_Id', 'B_Id'])]),
                 {'A.Id': [5, 7], 'B.Id': [5, 6], 'C.A_Id': [0, 5, 7], 'C.B_Id': [ABSENT, 5, 6]}, (2, 1, 2)))
     out.append((S('reflexive_assoc_class', [('A', [('Id', 'UNIQUE_ID')]), ('C', [('Cid', 'INTEGER'), ('One_Id', 'UNIQUE_ID'), ('Other_Id', 'UNIQUE_ID')])],
                   [Assoc(3, 'C', ['One_Id'], True, True, 'one', 'A', ['Id'], False, False, 'other'),
                    Assoc(3, 'C', ['Other_Id'], True, True, 'other', 'A', ['Id'], False, False, 'one')]),
                 {'A.Id': [5, 7], 'C.One_Id': [0, 5, 7], 'C.Other_Id': [5, 7, 9]}, (2, 2)))
     out.append((S('two_identifiers', [('A', [('Id', 'UNIQUE_ID'), ('Code', 'INTEGER')]), ('B', [('Bid', 'INTEGER'), ('A_Id', 'UNIQUE_ID'), ('A_Code', 'INTEGER')])],
-                  [Assoc(1, 'B', ['A_Id'], True, True, '', 'A', ['Id'], False, True, ''), Assoc(2, 'B', ['A_Code'], True, True, '', 'A', ['Code'], False, True, '')]),
+                  [Assoc(1, 'B', ['A_Id'], True, True, '', 'A', ['Id'], False, True, ''), Assoc(2, 'B', ['A_Code'], True, True, '', 'A', ['Code'], False, True, '')],
+                  [('A', 'I1', ['Id']), ('A', 'I2', ['Code'])]),
                 {'A.Id': [5, 7], 'A.Code': [1, 2], 'B.A_Id': [0, 5, 7], 'B.A_Code': [ABSENT, 1, 2, 3]}, (2, 2)))
     # two associations to the same referred class across the same identifying attributes, listed in different orders
     out.append((S('crossed_key_order', [('A', [('P', 'INTEGER'), ('Q', 'INTEGER')]), ('B', [('Bid', 'INTEGER'), ('X', 'INTEGER'), ('Y', 'INTEGER')]),
@@ -186,6 +191,8 @@ def statements(schema, rows, style=0):
         out.append('CREATE TABLE %s (%s);' % (kind, ', '.join('%s %s' % (n, t) for n, t in attrs)))
     for a in schema.assocs:
         out.append(a.sql().strip())
+    for kind, name, attrs in schema.uniques:
+        out.append('CREATE UNIQUE INDEX %s ON %s (%s);' % (name, kind, ', '.join(attrs)))
     types = dict((k, dict(a)) for k, a in schema.classes)
     for ri, (kind, values) in enumerate(rows):
         names = [n for n, _ in schema.attrs(kind) if values.get(n, ABSENT) != ABSENT]
@@ -358,7 +365,7 @@ def small_inputs(tier):
     '''Inputs of at most 6 (7) statements for the permutation / partition oracle.'''
     out = []
     for si, (schema, alphabet, caps) in enumerate(schemas_()):
-        nschema = len(schema.classes) + len(schema.assocs)
+        nschema = len(schema.classes) + len(schema.assocs) + len(schema.uniques)
         budget = (6 if tier == 'quick' else 7) - nschema
         if budget < 2:
             continue
@@ -682,7 +689,7 @@ def run(ctx):
     ctx.require(ctx.n('api_chained_cases') >= 100, 'too few API-route populations with a referential identifier (%d)' % ctx.n('api_chained_cases'))
     for si, (schema, _, caps) in enumerate(schemas_()):
         # (every schema that admits an input of exactly the statement bound)
-        if 2 <= bound - len(schema.classes) - len(schema.assocs) <= sum(caps):
+        if 2 <= bound - len(schema.classes) - len(schema.assocs) - len(schema.uniques) <= sum(caps):
             ctx.require(any(i == si for i, _ in small), 'schema %s takes no part in the permutation family' % schema.name)
 
 
